@@ -247,6 +247,29 @@ func init() {
 func init() {
 	moreRegs = append(moreRegs, func(eng *Engine) {
 		in := eng.intrinsics
+		// ABCIResults.Hash: a hash over an injective serialisation of exactly the fields CometBFT
+		// includes (Code, Data, GasWanted, GasUsed of every result, in order). The real function is a
+		// Merkle tree over protobuf encodings of the same fields.
+		in["(github.com/cometbft/cometbft/types.ABCIResults).Hash"] = func(w *Worker, fr *frame, f *ssa.Function, args []value) value {
+			rs, _ := args[0].([]value)
+			elemPtr := f.Signature.Recv().Type().Underlying().(*types.Slice).Elem()
+			st := deref(elemPtr).Underlying().(*types.Struct)
+			data := []value{uint64('R'), uint64('e'), uint64('s'), uint64(len(rs))}
+			for _, r := range rs {
+				p, _ := r.(*value)
+				if p == nil {
+					unsupported("ABCIResults.Hash model: nil result")
+				}
+				sv := (*p).(structure)
+				for i := 0; i < st.NumFields(); i++ {
+					switch st.Field(i).Name() {
+					case "Code", "Data", "GasWanted", "GasUsed":
+						data = w.serialize(st.Field(i).Type(), sv[i], data, 1)
+					}
+				}
+			}
+			return w.hashBytes("sha256", data)
+		}
 		in["(*github.com/cometbft/cometbft/types.Header).Hash"] = func(w *Worker, fr *frame, f *ssa.Function, args []value) value {
 			p, _ := args[0].(*value)
 			if p == nil {
